@@ -567,6 +567,28 @@ fn random_card(rng: &mut Rng) -> CardKind {
     }
 }
 
+/// One fault of each kind at every emission point (from point 13 on: after handshake and the
+/// configure of Feig::new) of each workload; judged with the results-only model under faults.
+fn fault_at_every_point(name: &'static str, wl: Vec<Vec<OpSpec>>, kinds: Vec<FaultKind>, max_tx: u8) -> Family<ClientPlan> {
+    let mut cases: Vec<(usize, u16, FaultKind)> = vec![];
+    for (wi, ops) in wl.iter().enumerate() {
+        let pts = crate::c09::dry_points(ops, max_tx);
+        for pnt in 13..=pts {
+            for k in &kinds {
+                cases.push((wi, pnt, *k));
+            }
+        }
+    }
+    let n = cases.len() as u64;
+    Family::new(name, n, true, move |i, _| {
+        let (wi, point, kind) = cases[i as usize];
+        let mut p = ClientPlan::plain(wl[wi].clone());
+        p.cfg.max_tx = max_tx;
+        p.faults = vec![FaultSpec { conn: 0, point, kind }];
+        p
+    })
+}
+
 // ---------------------------------------------------------------- the checks
 
 impl Check for ClientCheck {
@@ -610,6 +632,18 @@ impl Check for ClientCheck {
                     Tier::Quick => (40_000, 40),
                     Tier::Thorough => (1_500_000, 40),
                 };
+                {
+                    let b = |t: &str, pre: u8, prints: u8| OpSpec::Begin { token: t.into(), res: ResOutcome { pre, status: StatusMode::WithReceipt, prints, end: EndSpec::Completion } };
+                    let co = |t: &str| OpSpec::Commit { token: t.into(), amount: 100, rev: RevOutcome { pre: 1, status: true, prints: 1, end: EndSpec::Completion }, cleanup: CleanupSpec::plain() };
+                    let ca = |t: &str| OpSpec::Cancel { token: t.into(), rev: RevOutcome::success(), cleanup: CleanupSpec::plain() };
+                    let wl = vec![
+                        vec![b("A", 1, 1), co("A"), b("A", 0, 0), ca("A")],
+                        vec![b("A", 0, 2), ca("A"), b("A", 1, 0), co("A")],
+                        vec![b("A", 1, 0), b("B", 0, 1), co("A"), ca("B"), b("B", 0, 0), co("B")],
+                    ];
+                    let kinds = vec![FaultKind::Eof, FaultKind::Reset, FaultKind::EofMid(2), FaultKind::EpipeAfter, FaultKind::Silence, FaultKind::Nack(0x9c), FaultKind::BadBody];
+                    fams.push(fault_at_every_point("fault_at_every_point_of_begin_commit_cancel", wl, kinds, 2));
+                }
                 fams.push(Family::new("random_walks_5_tokens", n, false, move |_, rng| random_walk(rng, &TOKENS5, len)));
                 fams.push(Family::new("random_walks_under_transport_faults", n / 2, false, move |_, rng| faulty_walk(rng, &TOKENS5, 12)));
             }
